@@ -1,60 +1,51 @@
 //! Environment of the lifted `submit_request`: an abstract file and buffers that remember which
 //! file bytes they hold.
 use core::ops::{Bound, Range, RangeBounds};
-use vstd::vec::Vec;
+use vstd::cvec::Vec;
 
-pub const MAXRUN: usize = 2;
-
-/// A buffer = concatenation of at most MAXRUN runs `(file offset, length)`; adjacent runs are fused
-/// and empty runs dropped, so a buffer holding file[a..b) is exactly one run (a, b-a).
-#[derive(Clone, Copy, Debug, PartialEq)]
+/// A buffer that remembers which file bytes it holds: the contiguous file range
+/// `[off, off+len)`, or -- once bytes that are not adjacent in the file have been glued together
+/// -- `bad` (sticky).  A correct answer to a request `s..e` is exactly `{off: s, len: e-s, !bad}`.
+#[derive(Clone, Copy, Debug, Default, PartialEq)]
 pub struct Bytes {
-    n: usize,
-    off: [u64; MAXRUN],
-    len: [u64; MAXRUN],
+    off: u64,
+    len: u64,
+    bad: bool,
 }
 
 impl Bytes {
     pub fn new() -> Self {
-        Self { n: 0, off: [0; MAXRUN], len: [0; MAXRUN] }
+        Self::default()
     }
     pub fn file_range(r: &Range<u64>) -> Self {
-        let mut b = Self::new();
         if r.start < r.end {
-            b.push_run(r.start, r.end - r.start);
+            Self { off: r.start, len: r.end - r.start, bad: false }
+        } else {
+            Self::default()
         }
-        b
     }
-    fn push_run(&mut self, off: u64, len: u64) {
-        if len == 0 {
+    fn append(&mut self, o: &Self) {
+        if o.len == 0 {
             return;
         }
-        if self.n > 0 && self.off[self.n - 1] + self.len[self.n - 1] == off {
-            self.len[self.n - 1] += len;
+        if self.len == 0 {
+            *self = *o;
             return;
         }
-        vnd::model_bound(self.n < MAXRUN);
-        self.off[self.n] = off;
-        self.len[self.n] = len;
-        self.n += 1;
+        if o.bad || self.off + self.len != o.off {
+            self.bad = true;
+        }
+        self.len += o.len;
     }
     pub fn len(&self) -> usize {
-        let mut t = 0u64;
-        let mut i = 0;
-        while i < MAXRUN {
-            if i < self.n {
-                t += self.len[i];
-            }
-            i += 1;
-        }
-        t as usize
+        self.len as usize
     }
     pub fn is_empty(&self) -> bool {
-        self.n == 0
+        self.len == 0
     }
     /// `Bytes::slice`: panics when out of bounds, like the real one.
     pub fn slice(&self, range: impl RangeBounds<usize>) -> Self {
-        let total = self.len() as u64;
+        let total = self.len;
         let lo = match range.start_bound() {
             Bound::Included(&s) => s as u64,
             Bound::Excluded(&s) => s as u64 + 1,
@@ -67,29 +58,17 @@ impl Bytes {
         };
         assert!(lo <= hi, "range start must not be greater than end");
         assert!(hi <= total, "range end out of bounds");
-        let mut out = Self::new();
-        let mut pos = 0u64;
-        let mut i = 0;
-        while i < MAXRUN {
-            if i < self.n {
-                let (o, l) = (self.off[i], self.len[i]);
-                let a = if lo > pos { lo } else { pos };
-                let b = if hi < pos + l { hi } else { pos + l };
-                if a < b {
-                    out.push_run(o + (a - pos), b - a);
-                }
-                pos += l;
-            }
-            i += 1;
+        if lo == hi {
+            return Self::default();
         }
-        out
+        Self { off: self.off + lo, len: hi - lo, bad: self.bad }
     }
     /// Model-only: the buffer is exactly file[start..end)
     pub fn verif_is_file_range(&self, start: u64, end: u64) -> bool {
         if start >= end {
-            self.n == 0
+            self.len == 0
         } else {
-            self.n == 1 && self.off[0] == start && self.len[0] == end - start
+            !self.bad && self.off == start && self.len == end - start
         }
     }
 }
@@ -101,13 +80,7 @@ impl RunBuf {
         Self(Bytes::new())
     }
     pub fn extend_from_slice(&mut self, b: &Bytes) {
-        let mut i = 0;
-        while i < MAXRUN {
-            if i < b.n {
-                self.0.push_run(b.off[i], b.len[i]);
-            }
-            i += 1;
-        }
+        self.0.append(b);
     }
     pub fn len(&self) -> usize {
         self.0.len()
